@@ -648,6 +648,8 @@ class ModelReplay:
         self.mismatch: List[Tuple[int, Any, Any]] = []
         self.match = match
         self.followed = 0
+        self.elided = 0
+        self.extra = 0
         self.unstarted = None
 
     def choose(self, run, cur, enabled, kind, info):
@@ -667,7 +669,15 @@ class ModelReplay:
             self.i += 1
             if t in enabled:
                 pend = run.threads[t - 1].pending
-                if self.match is not None and pend is not None and not self.match(label, pend):
+                verdict = True if (self.match is None or pend is None) else self.match(label, pend)
+                if verdict == "model_extra":      # a lock operation of the model that the code does not perform
+                    self.elided += 1
+                    continue
+                if verdict == "real_extra":       # a lock operation of the code that the model does not have:
+                    self.i -= 1                   # perform it, then look at the same model step again
+                    self.extra += 1
+                    return t
+                if verdict is not True:
                     self.mismatch.append((self.i - 1, label, pend))
                 self.followed += 1
                 return t
